@@ -170,7 +170,7 @@ type rewriter struct {
 	stats   map[string]int
 	usedVrt bool
 	n       int
-	skip    map[ast.Node]bool     // comm statements of selects (handled by the select rewrite)
+	skip    map[ast.Node]bool // comm statements of selects (handled by the select rewrite)
 	rangeCh map[*ast.RangeStmt]bool
 	rangeMp map[*ast.RangeStmt]bool
 	selBlk  map[*ast.BlockStmt]bool // blocks produced by the select rewrite
